@@ -294,11 +294,24 @@ def run(ctx, rep):
                 return tg[0] if tg else t["otherwise"]
             return None
         return set(pathsens.reachable_under(B, fz))
-    gs = [bb for (b, bb, _) in searches if b.path == GET.path]
-    okg = bool(gs) and any(x in under_mode(GET, "FullEntries") for x in gs) and not any(x in under_mode(GET, "Ids") for x in gs) and not any(x in under_mode(GET, "None") for x in gs)
+    def mode_body(F):
+        """the body that dispatches on the index mode: F itself, or a helper of the index module that F calls on every path
+        (`fn contains_sorted(&self, id)` holding the match) - with its binary-search sites"""
+        own = [bb for (b, bb, _) in searches if b.path == F.path]
+        if own:
+            return F, own
+        for cb, ct in F.calls():
+            if "callee" in ct and callee(ct).startswith("rustic_core::index::binarysorted::") and callee(ct) in prog.bodies:
+                H = prog.bodies[callee(ct)]
+                hs_ = [bb for (b, bb, _) in searches if b.path == H.path]
+                if hs_ and all(C.dominates(F, cb, r_) for r_ in F.returns()):
+                    return H, hs_
+        return F, []
+    GB, gs = mode_body(GET)
+    okg = bool(gs) and any(x in under_mode(GB, "FullEntries") for x in gs) and not any(x in under_mode(GB, "Ids") for x in gs) and not any(x in under_mode(GB, "None") for x in gs)
     rep.check("C17.e", "get_id-only-full", okg, where=GET.loc(), what="get_id answers only from FullEntries (Ids / None give no location)")
-    hs = [bb for (b, bb, _) in searches if b.path == HAS.path]
-    okh = bool(hs) and any(x in under_mode(HAS, "FullEntries") for x in hs) and any(x in under_mode(HAS, "Ids") for x in hs) and not any(x in under_mode(HAS, "None") for x in hs)
+    HB, hs = mode_body(HAS)
+    okh = bool(hs) and any(x in under_mode(HB, "FullEntries") for x in hs) and any(x in under_mode(HB, "Ids") for x in hs) and not any(x in under_mode(HB, "None") for x in hs)
     rep.check("C17.e", "has-modes", okh, where=HAS.loc(), what="has() searches Ids and FullEntries and answers false for None")
     if ctx.tier == "thorough" and ctx.config == "default":
         run_witness(ctx, rep)
